@@ -192,7 +192,7 @@ class ApplicationAssociationResponse(acse_base.AbstractAcseApdu):
         if not aare_tag == cls.TAG:
             raise ValueError("Bytes are not an AARQ APDU. TAg is not int(96)")
 
-        aare_length = aare_data.pop(0)
+        aare_length = BER.pop_length(aare_data)
 
         if not len(aare_data) == aare_length:
             raise ValueError(
@@ -216,7 +216,7 @@ class ApplicationAssociationResponse(acse_base.AbstractAcseApdu):
                     f"Could not find object with tag {object_tag} "
                     f"in AARQ definition"
                 )
-            object_length = aare_data.pop(0)
+            object_length = BER.pop_length(aare_data)
             object_data = bytes(aare_data[:object_length])
             aare_data = aare_data[object_length:]
 
@@ -281,14 +281,14 @@ class ApplicationAssociationResponse(acse_base.AbstractAcseApdu):
         meter_system_title = object_dict.pop("responding_ap_title", None)
         if meter_system_title:
             # it is ber encoded universal tag ocetctring. simple handling
-            object_dict["system_title"] = bytes(meter_system_title[2:])
+            object_dict["system_title"] = bytes(BER.decode(meter_system_title)[2])
         else:
             object_dict["system_title"] = None
         # rename responding_ae_qualifier to meter_public_cert
         meter_public_cert = object_dict.pop("responding_ae_qualifier", None)
         if meter_public_cert:
             # it is ber encoded universal tag ocetctring. simple handling
-            object_dict["public_cert"] = bytes(meter_public_cert[2:])
+            object_dict["public_cert"] = bytes(BER.decode(meter_public_cert)[2])
         else:
             object_dict["public_cert"] = None
 
